@@ -71,7 +71,7 @@ class SQLStorage(Storage):
                 return
             policy_model.update(policy)
             self.session.commit()
-        except IntegrityError:
+        except Exception:
             self.session.rollback()
             raise
         log.info('Updated Policy with UID=%s. New value is: %s', policy.uid, policy)
